@@ -1368,3 +1368,39 @@ def enum_class_agreement(repo, rep, rule):
                             rep.check(cls[a.id] == sig[i], rule, site, f"`{norm(c)[:80]}`: argument `{a.id}` ({cls[a.id]}) for a parameter annotated {sig[i]}",
                                       f"`{norm(c)[:80]}` passes `{a.id}`, a {cls[a.id]}, to a parameter that `{c.func.id}` compares as {sig[i]}: the callee's comparisons are constant")
     return n
+
+
+def loop_stem_lint(repo, rep, rule, what):
+    """A loop / comprehension variable named after an operand (ifm, ifm2, ofm: `ifm_prod`, `ofm_cons` ..) iterates a collection reached
+    through the operand of the same name (`op.ifm.ops`, `ofm.consumer_list` ..). Eight such loops in the tree, no exception."""
+    def stem(name):
+        toks = name.lower().split("_")
+        for s_ in ("ifm2", "ifm", "ofm"):
+            if s_ in toks:
+                return s_
+        return None
+
+    def stems_in(e):
+        out = set()
+        for x in ast.walk(e):
+            if isinstance(x, ast.Attribute) and x.attr in ("ifm", "ifm2", "ofm"):
+                out.add(x.attr)
+            if isinstance(x, ast.Name) and stem(x.id):
+                out.add(stem(x.id))
+        return out
+
+    n = 0
+    for m in repo.core_modules():
+        for q, fn in m.functions.items():
+            for node in ast.walk(fn):
+                if not isinstance(node, (ast.For, ast.comprehension)):
+                    continue
+                for nm in [x for x in ast.walk(node.target) if isinstance(x, ast.Name)]:
+                    s_ = stem(nm.id)
+                    si = stems_in(node.iter)
+                    if not s_ or not si:
+                        continue
+                    n += 1
+                    rep.check(s_ in si, rule, f"{m.rel}:{q}", f"`{nm.id}` iterates a collection of the {s_.upper()} (`{str(norm(node.iter))[:60]}`)",
+                              f"`{nm.id}` ranges over `{str(norm(node.iter))[:70]}`, which belongs to {sorted(x.upper() for x in si)}: {what}")
+    return n
